@@ -39,7 +39,7 @@ def exhaustive(case, W):
     return all(i in W or c + case.cost[nm] > case.budget for i, nm in enumerate(case.names))
 
 
-def gen(ctx):
+def gen(ctx, force_mode=None):
     rng = ctx.rng
     if rng.random() < 0.5:
         case = core.gen_election(rng, btypes=("app",), m_lo=1, m_hi=5, n_hi=5)
@@ -51,7 +51,10 @@ def gen(ctx):
             case = Case(case.projects, case.budget, "app", core.gen_ballots(rng, "app", [n for n, _ in case.projects], 1, 5, distinct_hi=2), case.seed)
     sat = rng.choice(["Cost_Sat", "Cardinality_Sat", "Relative_Cardinality_Sat"])
     specs = ["mes:" + sat, "greedy:" + sat, "phragmen"]
-    mode = rng.choice(["increase", "completion", "iterated"])
+    mode = force_mode or rng.choice(["increase", "completion", "iterated"])
+    if force_mode == "iterated":
+        # several rounds with binding budgets: larger elections, budget a fraction of the total cost
+        case = core.gen_big_election(rng)
     cfg = {"mode": mode, "tie": rng.choice(["lexico", "lexico", "min_cost", "max_cost", "app_score"]), "res": rng.random() < 0.5,
            "multi": rng.random() < 0.4, "init": []}
     if mode == "increase":
@@ -72,7 +75,10 @@ def gen(ctx):
             pass
     else:
         cfg["sat"] = sat
-        cfg["inc"] = F(rng.choice([1, F(1, 2), F(1, 3), 2, F(3, 4)]))
+        cfg["inc"] = F(rng.choice([1, F(1, 2), F(1, 3), 2, F(3, 4), F(1, 4)]))
+        if force_mode == "iterated":
+            cfg["res"] = True
+            cfg["sat"] = rng.choice(["Cost_Sat", "Cardinality_Sat"])
     return case, cfg
 
 
@@ -243,11 +249,12 @@ def check(case, cfg):
 def run(ctx, n=None, compare=True):
     ctx.rule = RULE
     n = n or ctx.scale(1500, 12000)
+    n_iter = ctx.scale(2500, 20000)  # extra stream: iterated Equal Shares over several budget rounds on larger elections
     lines, info = [], []
-    for _ in range(n):
+    for k in range(n + n_iter):
         if ctx.budget_s is not None and ctx.elapsed() > ctx.budget_s:
             break
-        case, cfg = gen(ctx)
+        case, cfg = gen(ctx, "iterated" if k >= n else None)
         built, outs, vs, tries = check(case, cfg)
         ctx.evaluations += 1
         ctx.count("mode", cfg["mode"])
